@@ -178,10 +178,13 @@ def run(tier, seed, repo, focus=None):
     known = load_known()
     for metric in ("intersection", "kl"):
         for scaling in (True, False):
-            for (w, sp, d, evt) in ((25, 0.08, 3, 0.99), (30, 0.1, 2, 0.9), (40, 0.05, 4, 0.99)):
+            # the last configuration has step = round(sample_period * window) = 1: a score on every sample
+            for (w, sp, d, evt) in ((25, 0.08, 3, 0.99), (30, 0.1, 2, 0.9), (40, 0.05, 4, 0.99), (60, 0.02, 3, 0.99)):
                 for kind in ("level", "var", "corr"):
                     for s in range(2 if quick else 6):
                         if quick and kind != "level" and s > 0:
+                            continue
+                        if sp == 0.02 and (kind != "level" or s > 0 or (metric == "kl" and quick)):
                             continue
                         scn = {"window": w, "ev": evt, "delta": 0.05, "metric": metric, "sample_period": sp, "scaling": scaling,
                                "seed": seed + s, "n": 260 if quick else 500, "d": d, "kind": kind}
